@@ -17,7 +17,7 @@ const OPTBOX: &[&str] = &["absent", "present", "non-integer", "tiny-and-huge-coo
 const ROTATE: &[&str] = &["0", "90", "-90", "270"];
 const OTHER: &[&str] = &["none", "int", "nested-dict", "name", "string+array", "tiny-real", "names-with-number-signs-and-delimiters"];
 const RES: &[&str] = &["none", "font", "ext-gstate", "both", "colour-spaces"];
-const INFO: &[&str] = &["none", "title-only", "all-fields"];
+const INFO: &[&str] = &["none", "title-only", "all-fields", "strings-with-unpaired-parentheses"];
 const PRIM: &[&str] = &["none", "metadata-dict"];
 
 fn pt(x: f32, y: f32) -> Point {
@@ -110,7 +110,7 @@ pub fn builder_case(ch: &mut Chooser, t: &mut Tally) {
                 other.insert("#", Primitive::Array(vec![Primitive::Name("#23".into()), Primitive::Name("##".into()), Primitive::Name("Layer#2A".into()), Primitive::Name("".into())]));
             }
             4 => {
-                other.insert("Custom", Primitive::Array(vec![Primitive::String(PdfString::new(b"a (string) \\ with \r specials"[..].into())), Primitive::Boolean(true)]));
+                other.insert("Custom", Primitive::Array(vec![Primitive::String(PdfString::new(b"a (string) \\ with \r specials"[..].into())), Primitive::String(PdfString::new(b"b) (a"[..].into())), Primitive::Boolean(true)]));
             }
             _ => {}
         }
@@ -132,6 +132,7 @@ pub fn builder_case(ch: &mut Chooser, t: &mut Tally) {
     let info = match info_kind {
         0 => None,
         1 => Some(InfoDict { title: Some(PdfString::new(b"Only a (title)"[..].into())), ..Default::default() }),
+        3 => Some(InfoDict { title: Some(PdfString::new(b"1) scope (draft"[..].into())), subject: Some(PdfString::new(b")("[..].into())), keywords: Some(PdfString::new(b"((a) \\ )b( \\"[..].into())), ..Default::default() }),
         _ => Some(InfoDict {
             title: Some(PdfString::new(b"T"[..].into())),
             author: Some(PdfString::new(vec![0xfe, 0xff, 0, b'A'].as_slice().into())),
@@ -343,6 +344,12 @@ fn check_built(bytes: &[u8], specs: &[PageSpec], info_kind: usize) -> std::resul
         (_, None) => return Err(("info-missing".into(), String::new())),
         (1, Some(i)) => {
             if i.title.as_ref().map(|s| s.as_bytes().to_vec()) != Some(b"Only a (title)".to_vec()) || i.author.is_some() || i.creation_date.is_some() {
+                return Err(("info-differs".into(), format!("{:?}", i)));
+            }
+        }
+        (3, Some(i)) => {
+            let s = |x: &Option<PdfString>| x.as_ref().map(|s| s.as_bytes().to_vec());
+            if s(&i.title) != Some(b"1) scope (draft".to_vec()) || s(&i.subject) != Some(b")(".to_vec()) || s(&i.keywords) != Some(b"((a) \\ )b( \\".to_vec()) || i.author.is_some() {
                 return Err(("info-differs".into(), format!("{:?}", i)));
             }
         }
